@@ -272,6 +272,9 @@ func judge(d *driver, o *flowOut) engine.Result {
 	notServed := func(outcome, detail string) engine.Result {
 		return engine.Bad(rule, outcome, sig("flow-not-served"), detail)
 	}
+	if o.history != nil {
+		return engine.Bad(rule, "bad-history:"+o.history.what, "C06/"+o.history.what+"/"+c.router+"/history", o.history.detail)
+	}
 	if o.resp != nil && o.resp.Panic != "" {
 		// panics are the business of C09/C15: no token was issued, nothing to judge here, not reported under C06
 		return engine.OK(rule, "panic")
@@ -328,8 +331,12 @@ func judge(d *driver, o *flowOut) engine.Result {
 			atKind = "opaque"
 			vd = checkOpaque(o, at, stored)
 		}
-		if vd == nil && atKind != c.attype {
-			vd = &verdict{"at-type", fmt.Sprintf("client is configured for %s access tokens, response carries a %s one", c.attype, atKind)}
+		wantKind := c.attype
+		if c.flow == "jwt" && c.caps == "no-jp" {
+			wantKind = "opaque" // nobody to ask for another type
+		}
+		if vd == nil && atKind != wantKind {
+			vd = &verdict{"at-type", fmt.Sprintf("client is configured for %s access tokens, response carries a %s one", wantKind, atKind)}
 		}
 		if vd == nil {
 			vd = checkResponse(o, stored)
